@@ -27,7 +27,7 @@ import (
 func volumeCases(thorough bool, cc *caseCollector) {
 	n := 700000
 	if thorough {
-		n = 8000000
+		n = 5000000
 	}
 	if backend != "5x52" {
 		n /= 20 // the 10x26 Mul leaves canonical limbs; the 32-bit worker shares the cores
